@@ -103,7 +103,7 @@ func checkEddsaSignature(r *Run, what string, net *Net, out *sigOutcome, pub *cr
 }
 
 func runC02(r *Run, rng *rand.Rand, thorough bool) {
-	r.Rule = "whole EdDSA signing runs on keys produced by the library's own key generation: (n,t) with n ≤ 4 (≤ 6 thorough), signer subsets of size ≥ t+1, messages {1 byte, 31/32/33/64/200 bytes, leading zero bytes with and without fullBytesLen}, delivery strategies of C07; every signature is judged by Go's crypto/ed25519 and by the Lean model's RFC 8032 verifier (own SHA-512 and curve arithmetic); non-trivial = distinct verify op; direct assertions: identical 64-byte output at every signer, standard verifier accepts over exactly the echoed bytes"
+	r.Rule = "whole EdDSA signing runs on keys produced by the library's own key generation: (n,t) with n ≤ 4 (≤ 6 thorough), signer subsets of size ≥ t+1, messages {1 byte, 31/32/33/64/200 bytes, leading zero bytes with and without fullBytesLen}, delivery strategies of C07, plus directed runs whose nonce shares are steered so that the encoded R has a zero top byte (with either sign bit); every signature is judged by Go's crypto/ed25519 and by the Lean model's RFC 8032 verifier (own SHA-512 and curve arithmetic); non-trivial = distinct verify op; direct assertions: identical 64-byte output at every signer, standard verifier accepts over exactly the echoed bytes"
 	maxN := 4
 	if thorough {
 		maxN = 6
@@ -148,6 +148,85 @@ func runC02(r *Run, rng *rand.Rand, thorough bool) {
 				if len(r.Samples) < 8 {
 					r.Samples = append(r.Samples, fmt.Sprintf("eddsa signing n=%d t=%d signers=%v msg-bytes=%d fullBytesLen=%d schedule=%s", n, t, sub, ml, fullLen, st.Name))
 				}
+			}
+		}
+	}
+	// directed: nonce shares steered so that the encoding of R hits the boundaries of the 32-byte form
+	// (top byte 0x00: y < 2^248 and x even; top byte 0x80: y < 2^248 and x odd; thorough: two zero top bytes)
+	if ks, err := genEdKeys(rng, 3, 1, 1, Strategy{Name: "fifo", Pick: pickFIFO}); err == nil {
+		q := tss.Edwards().Params().N
+		shapes := []struct {
+			name string
+			ok   func(e []byte) bool
+		}{
+			{"R-top-byte-00", func(e []byte) bool { return e[31] == 0x00 }},
+			{"R-top-byte-80", func(e []byte) bool { return e[31] == 0x80 }},
+		}
+		if thorough {
+			shapes = append(shapes, struct {
+				name string
+				ok   func(e []byte) bool
+			}{"R-two-top-bytes-00", func(e []byte) bool { return e[31] == 0 && e[30] == 0 }})
+		}
+		for si, sh := range shapes {
+			sub := [][]int{{0, 1}, {0, 2}, {1, 2}, {0, 1, 2}}[(si+int(r.Seed))%4]
+			un := make(tss.UnSortedPartyIDs, len(sub))
+			for a, j := range sub {
+				un[a] = ks.pids[j]
+			}
+			pids := tss.SortPartyIDs(un)
+			keys := make([]eddsakeygen.LocalPartySaveData, 0, len(pids))
+			for _, id := range pids {
+				for j, p := range ks.pids {
+					if bytes.Equal(p.Key, id.Key) {
+						keys = append(keys, ks.keys[j])
+					}
+				}
+			}
+			mb := randBytes(rng, 32)
+			m := new(big.Int).SetBytes(mb)
+			net := eddsaSigningNet(rng, keys, pids, ks.t, m, len(mb))
+			sum := new(big.Int)
+			for j := 1; j < len(net.Nodes); j++ {
+				rj := new(big.Int).Add(below(rng, new(big.Int).Sub(q, bi(2))), bi(1))
+				sum.Add(sum, rj)
+				net.Nodes[j].Rand.prefix = padTo(rj, 256)
+			}
+			var r0 *big.Int
+			var target *crypto.ECPoint
+			for tries := 0; tries < 400000 && target == nil; tries++ {
+				c := new(big.Int).Add(below(rng, new(big.Int).Sub(q, bi(2))), bi(1))
+				tot := new(big.Int).Mod(new(big.Int).Add(c, sum), q)
+				if tot.Sign() == 0 {
+					continue
+				}
+				pt := crypto.ScalarBaseMult(tss.Edwards(), tot)
+				if sh.ok(edEncode(pt)) {
+					r0, target = c, pt
+				}
+			}
+			if target == nil {
+				r.Note("steering: no nonce found for %s", sh.name)
+				continue
+			}
+			net.Nodes[0].Rand.prefix = padTo(r0, 256)
+			net.Run(rng, Strategy{Name: "fifo", Pick: pickFIFO}, 200000)
+			out := &sigOutcome{panics: net.Panics}
+			for _, nd := range net.Nodes {
+				for _, e := range nd.Ends {
+					out.sigs = append(out.sigs, e.(*common.SignatureData))
+				}
+				if nd.Err != nil {
+					out.errs = append(out.errs, errDesc(nd.Err))
+				}
+			}
+			r.Dist["eddsa-signing/directed-"+sh.name]++
+			checkEddsaSignature(r, "eddsa-signing/directed", net, out, ks.keys[0].EDDSAPub, m, len(mb))
+			if len(out.sigs) > 0 && len(out.sigs[0].Signature) == 64 {
+				want := edEncode(target)
+				r.Assert(bytes.Equal(out.sigs[0].Signature[:32], want), "eddsa-signing/directed/steering", "steered-run-produced-the-intended-R", func() string {
+					return fmt.Sprintf("%s: R half of the signature %x, the aggregate nonce point encodes as %x", sh.name, out.sigs[0].Signature[:32], want)
+				})
 			}
 		}
 	}
